@@ -92,6 +92,27 @@ pub mod __m2s_cfg {
         }
         out
     }
+
+    /// One batch per entry of `sizes` (a single event of that many bytes), all within one period, size limit `max_file_size_bytes`.
+    /// Per batch: "PANIC", or "<on_batch returned Ok> <number of files of the set>".
+    pub fn run_sized(max_file_size_bytes: usize, sizes: &[usize]) -> Vec<String> {
+        let fs = MemFs::default();
+        let secs = Arc::new(Mutex::new(1_700_000_000u64));
+        let mut w = Worker::new(Arc::new(InternalMetrics::default()), fs.clone(), StepClock(secs.clone()), CountRng(Mutex::new(0)),
+            "logs".to_owned(), "app".to_owned(), "log".to_owned(), RollBy::Minute, false, 1000, max_file_size_bytes, b"\n");
+        let mut out = Vec::new();
+        for (i, n) in sizes.iter().enumerate() {
+            *secs.lock().unwrap() += 1;          // rolling ids are millis within the period: keep file names distinct, period unchanged
+            let mut b = EventBatch::new();
+            b.push(vec![b'a' + (i as u8 % 26); *n].into_boxed_slice());
+            let r = std::panic::catch_unwind(std::panic::AssertUnwindSafe(|| w.on_batch(b).is_ok()));
+            match r {
+                Err(_) => { out.push("PANIC".to_owned()); break; }
+                Ok(ok) => out.push(format!("{} {}", ok, fs.0.lock().unwrap().len())),
+            }
+        }
+        out
+    }
 }
 '''
 
@@ -408,3 +429,186 @@ def r3_obligation(P, A):
         "(apply_retention's loop unrolled 2 iterations); WHICH names `read` admits into the set (membership = starts_with(prefix) && ends_with(ext)) "
         "is the Kani kernel K2, not this obligation",
         must, wit, false, static_checks=checks)
+
+
+# ---------------------------------------------------------------- r2 (C11 K3): the keep-the-active-file test, engine E2 (integers)
+
+USIZE_MAX = (1 << 64) - 1
+R2_VECTORS = [(10, 5, 100), (10, 5, 15), (10, 5, 14), (10, 5, 9), (1, 1, 0), (20, 1, 20), (3, 3, 6), (7, 1, 7), (64, 64, 128)]
+
+
+def r2_locate(P, A):
+    """The `file.filter(|file| ..)` closure inside on_batch, found by its shape."""
+    c = []
+    for b in cfgabs.nested_closures(P, A.body):
+        if len(b.params) == 2 and simple_type_(b.params[1][1]) == "ActiveFile" and (b.ret_ty or "").strip() == "bool":
+            dn = " ".join(b.debug)
+            if "remaining_bytes" in dn and "max_file_size_bytes" in dn and "file_ts" in dn:
+                c.append(b)
+    if len(c) != 1:
+        raise Unsupported("the keep-the-active-file closure (|file: &ActiveFile| -> bool reading remaining_bytes, max_file_size_bytes, file_ts) "
+                          "was found %d times among the closures of on_batch" % len(c))
+    return c[0]
+
+
+def simple_type_(t):
+    from .program import simple_type
+    return simple_type(t)
+
+
+def r2_encoding(P, A):
+    from . import summaries as base
+    from .symex import Executor, Agg, IntV, BoolV, RefV, Opaque
+    from .engine import Encoding
+    body = r2_locate(P, A)
+    cap = {}
+    for name, place in body.debug.items():
+        m = re.fullmatch(r"\(\*\(_1\.(\d+): &[^)]*\)\)", place)
+        if m:
+            cap[name] = int(m.group(1))
+    want = {"rem": [k for k in cap if k.endswith("remaining_bytes")], "max": [k for k in cap if k.endswith("max_file_size_bytes")],
+            "ts": [k for k in cap if k.endswith("file_ts")]}
+    if any(len(v) != 1 for v in want.values()) or len(cap) != 3:
+        raise Unsupported("closure captures are not exactly (remaining_bytes, max_file_size_bytes, file_ts) by reference: %s" % body.debug)
+    fields = A.struct_fields("ActiveFile")
+    if not fields or "file_size_bytes" not in fields or "file_ts" not in fields:
+        raise Unsupported("struct ActiveFile { .. file_ts, file_size_bytes .. } not found in the source")
+    i_size, i_ts = fields.index("file_size_bytes"), fields.index("file_ts")
+
+    class Summ:
+        """summaries.py + ONE extra: `<String as PartialEq>::eq(&file.file_ts, captured file_ts)` = the free boolean E"""
+        used = 0
+
+        def __init__(self, E):
+            self.E = E
+
+        def lookup(self, pc):
+            if pc["self_ty"] == "String" and pc["trait"] == "PartialEq" and pc["method"] == "eq":
+                def f(ex, pc, a, st, g):
+                    ok = (isinstance(a[0], RefV) and a[0].cell == ("ext", "file") and a[0].path == (("f", i_ts),)
+                          and isinstance(a[1], RefV) and a[1].cell == ("ext", "ts"))
+                    if not ok or Summ.used:
+                        raise Unsupported("String equality on something else than file.file_ts == file_ts")
+                    Summ.used += 1
+                    return BoolV(self.E), g
+                return f
+            return base.lookup(pc)
+
+        def describe(self, pc):
+            return "String == String as a free boolean E (file.file_ts == file_ts)" if pc["self_ty"] == "String" else base.describe(pc)
+
+        constant = staticmethod(base.constant)
+        is_foreign_adt = staticmethod(base.is_foreign_adt)
+
+    ex = Executor(P, summaries=None)
+    S = ex.S
+    fsz = S.declare_int("file_size_bytes", 0, USIZE_MAX)
+    rem = S.declare_int("remaining_bytes", 0, USIZE_MAX)
+    mx = S.declare_int("max_file_size_bytes", 0, USIZE_MAX)
+    E = S.declare_bool("file_ts_equal")
+    ex.summaries = Summ(E)
+    e = Encoding("keep_closure", ex)
+    try:
+        ffields = [Opaque("ActiveFile.%s" % f) for f in fields]
+        ffields[i_size] = IntV("usize", fsz)
+        env = [None, None, None]
+        env[cap[want["rem"][0]]] = RefV(("ext", "rem"))
+        env[cap[want["max"][0]]] = RefV(("ext", "max"))
+        env[cap[want["ts"][0]]] = RefV(("ext", "ts"))
+        store = {("ext", "file"): Agg("struct", "ActiveFile", ffields), ("ext", "rem"): IntV("usize", rem), ("ext", "max"): IntV("usize", mx),
+                 ("ext", "ts"): Opaque("captured file_ts")}
+        ex.tag = "keep"
+        rv, st, g = ex.exec_body(body, [Agg("struct", "closure", env), RefV(("ext", "file"))], store, True)
+        if not isinstance(rv, BoolV):
+            raise Unsupported("closure did not return bool")
+        e.inputs = [("file_size_bytes", fsz), ("remaining_bytes", rem), ("max_file_size_bytes", mx), ("file_ts_equal", E)]
+        e.outputs = [("keep", rv.t)]
+        e.ret_guard = g
+    except Unsupported as u:
+        e.error = "unsupported MIR in the keep-the-active-file closure: %s" % u
+    return e, body
+
+
+def r2_native_main():
+    src = ["use emit_file::__m2s_cfg as v;", "fn main() {"]
+    for a, b, l in R2_VECTORS:
+        src.append("    println!(\"R2 %d %d %d {}\", v::run_sized(%d, &[%d, %d]).join(\" | \"));" % (a, b, l, l, a, b))
+    src.append("}")
+    return "\n".join(src) + "\n"
+
+
+def r2_vectors(stdout):
+    """Native observation through the real Worker: after a first batch of `a` bytes into a fresh file (size a) a second batch of `b` bytes in
+    the same period keeps the file (still 1 file) iff the closure returned true; a panic is a panic of the closure's arithmetic."""
+    v, problems = [], []
+    for ln in stdout.split("\n"):
+        w = ln.split()
+        if len(w) < 5 or w[0] != "R2":
+            continue
+        a, b, l = int(w[1]), int(w[2]), int(w[3])
+        rest = " ".join(w[4:]).split(" | ")
+        if rest[0] != "true 1":
+            problems.append("vector %s: the first batch did not create exactly one file (%s)" % (w[1:4], rest[0]))
+            continue
+        inp = {"file_size_bytes": a, "remaining_bytes": b, "max_file_size_bytes": l, "file_ts_equal": True}
+        if len(rest) < 2 or rest[1] == "PANIC":
+            v.append(("a%d_b%d_L%d" % (a, b, l), inp, {"panic": True, "out": {}}))
+        elif rest[1] in ("true 1", "true 2"):
+            v.append(("a%d_b%d_L%d" % (a, b, l), inp, {"panic": False, "out": {"keep": rest[1] == "true 1"}}))
+        else:
+            problems.append("vector %s: unexpected native outcome %r" % (w[1:4], rest[1]))
+    if len(v) < 6:
+        problems.append("only %d native vectors for the keep-the-active-file closure" % len(v))
+    return v, problems
+
+
+def r2_obligation(P, A, enc, workdir):
+    from .engine import Query
+    from .driver import Obligation
+    from .smt import i_le, i_add, b_eq
+    q = []
+    if not enc.error:
+        i, o = dict(enc.inputs), dict(enc.outputs)
+        pre = i_le(i_add(i["file_size_bytes"], i["remaining_bytes"]), USIZE_MAX)
+        spec = b_and(i_le(i_add(i["file_size_bytes"], i["remaining_bytes"]), i["max_file_size_bytes"]), i["file_ts_equal"])
+        pan = enc.panics()
+        q = [Query("K3_r2_keep_test_panic_free", enc, [pre, _or([p.guard for p in pan])], fast_z3=True),
+             Query("K3_r2_keep_iff_fits_and_same_period", enc, [pre, enc.ret_guard, b_not(b_eq(o["keep"], spec))], fast_z3=True)]
+
+    def replay(model):
+        # models may need sizes nobody can allocate: re-solve the violated query with small sizes, then run them through the real Worker
+        import os
+        small = None
+        for qq in q:
+            a = qq.answers.get("cvc5")
+            if a is None or a.status != "sat":
+                continue
+            ii = dict(enc.inputs)
+            extra = [i_le(1, ii["file_size_bytes"]), i_le(ii["file_size_bytes"], 64), i_le(1, ii["remaining_bytes"]), i_le(ii["remaining_bytes"], 64),
+                     i_le(ii["max_file_size_bytes"], 256), ii["file_ts_equal"]]
+            path = os.path.join(workdir, "r2_small_%s.smt2" % qq.name)
+            with open(path, "w") as f:
+                f.write(qq.text(extra=extra))
+            b = smt.run_solver("cvc5", path, 60, extra_args=["--no-arith-brab"])
+            if b.status == "sat":
+                small = {lab: b.model.get(t) for lab, t in enc.inputs}
+                break
+        if small is None:
+            return ("fn main() { println!(\"the solver's counterexample %s has no instance with sizes <= 64 bytes in one period: "
+                    "not replayable\"); }\n" % str(model).replace('"', "'"))
+        a_, b_, l_ = small["file_size_bytes"], small["remaining_bytes"], small["max_file_size_bytes"]
+        return ("use emit_file::__m2s_cfg as v;\n\nfn main() {\n"
+                "    // C11: a new file is started whenever the batch would take the current file past the size limit (and otherwise not), without panicking.\n"
+                "    // limit %d bytes; a fresh file takes its first batch of %d bytes whatever its size; then a batch of %d bytes in the same period\n"
+                "    let r = v::run_sized(%d, &[%d, %d]);\n    println!(\"{:?}\", r);\n"
+                "    assert_eq!(r[0], \"true 1\", \"first batch\");\n"
+                "    assert!(r.len() == 2 && r[1] != \"PANIC\", \"on_batch panicked on the second batch (file size %d, batch %d, limit %d)\");\n"
+                "    let must_roll = %d + %d > %d;\n"
+                "    assert_eq!(r[1], if must_roll { \"true 2\" } else { \"true 1\" }, \"file size %d + batch %d vs limit %d: expected {}\", if must_roll { \"a new file\" } else { \"the same file\" });\n}\n"
+                % (l_, a_, b_, l_, a_, b_, a_, b_, l_, a_, b_, l_, a_, b_, l_))
+
+    return Obligation("K3_r2_keep_active_file_test", enc, [FN + "::{closure: file.filter}"],
+                      "engine E2 on the MIR of the `file.filter(|file| ..)` closure: ALL usize values of (file_size_bytes, remaining_bytes, "
+                      "max_file_size_bytes) with file_size_bytes + remaining_bytes <= usize::MAX (the property's own sum must be representable), "
+                      "the String comparison file.file_ts == file_ts a free boolean E: no panic, result <=> (size + remaining <= max) && E",
+                      q, replay, crate="emitter/file", default_features=True, append=[(FILE, WRAPPER)])
